@@ -471,6 +471,7 @@ static void run_c08(long cases) {
         int baselineFds = lv::fd_count();
         // descriptors left over from the previous round's endpoint (shut down with a connection still open) are not this round's
         long accepts0, closes0; { lv::Interpose& I = lv::ip(); std::lock_guard<std::mutex> g(I.m); I.owned.clear(); accepts0 = I.accepts; closes0 = I.closesOwned; }
+        long badf0 = lv::ip().closeBadf.load();
         int nclients = r.range(1, 24);
         if (burstRound) nclients = r.range(70, 130);
         if (stallRound) nclients = std::max(nclients, 5);   // (the stalling client, two that stay silent past the time-out and then leave, and others)
@@ -506,6 +507,7 @@ static void run_c08(long cases) {
         long accepts, closes; size_t stillOwned; { lv::Interpose& I = lv::ip(); std::lock_guard<std::mutex> g(I.m); accepts = I.accepts - accepts0; closes = I.closesOwned - closes0; stillOwned = I.owned.size(); }
         std::string srv = http ? "http" : "tcp";
         if (g_foreign_bytes.load() > 0) { key = "c08:reply-is-not-the-connections-own:" + srv; std::lock_guard<std::mutex> g(g_m); wt = Json().num("i", idx).str("phase", "c08").str("server", srv).str("behaviours", bt).str("received", g_foreign_detail).done(); g_foreign_bytes = 0; }
+        else if (lv::ip().closeBadf.load() > badf0) { key = "c08:descriptor-closed-twice:" + srv; wt = Json().num("i", idx).str("phase", "c08").str("server", srv).str("behaviours", bt).num("close_calls_answered_EBADF", lv::ip().closeBadf.load() - badf0).num("descriptor", lv::ip().closeBadfFd.load()).done(); }
         else if (!quiet) key = "c08:socket-not-released:" + srv;
         else if (!fdsBack) { key = "c08:descriptors-above-baseline:" + srv; wt = Json().num("i", idx).str("phase", "c08").str("server", srv).str("behaviours", bt).num("baseline", baselineFds).num("now", lv::fd_count()).str("open", lv::fd_listing().substr(0, 1500)).done(); }
         {
